@@ -224,10 +224,13 @@ MUTANTS = [
     ("SILENT-fresh-bcterm-each-solve", P,
      "    Mbc, RHSbc = phi._BCsTerm\n",
      "    from .boundary import boundaryConditionsTerm as _bct\n    Mbc, RHSbc = _bct(phi.BCs)\n", ["C09", "C04", "C15"], "silent"),
-    ("SILENT-explicit-new-bcs-object", P,
+    # the explicit solver's result must keep following the BoundaryConditions object of
+    # its input (chained loops edit that object between steps); on the must-stay-silent
+    # list until three independent sub-agents delivered it as a C12 defect (DESIGN 13.2)
+    ("explicit-new-bcs-object", P,
      "    phi = CellVariable(phi_old.domain, 0.0, phi_old.BCs, \n                       BCsTerm_precalc = False)",
      "    import copy as _copy\n    phi = CellVariable(phi_old.domain, 0.0, _copy.deepcopy(phi_old.BCs), \n                       BCsTerm_precalc = False)",
-     ["C09", "C12", "C15"], "silent"),
+     ["C12"], "caught"),
 ]
 
 
